@@ -21,6 +21,8 @@ import (
 	"testing/synctest"
 	"time"
 
+	"crypto/tls"
+
 	"github.com/gobwas/ws"
 
 	"verifharness/fakeconn"
@@ -41,12 +43,14 @@ type scen struct {
 	WBuf        int
 	TLS         bool
 	DialDelay   time.Duration
-	LastOp      int // index of the last I/O op of an undisturbed handshake (filled from the dry run)
+	LastOp      int  // index of the last I/O op of an undisturbed handshake (filled from the dry run)
+	RealTLS     bool // wss through the library's own crypto/tls client against a real crypto/tls server peer
+	TLS12       bool // RealTLS: cap the server at TLS 1.2 (different flights than 1.3)
 }
 
 func (s scen) String() string {
-	return fmt.Sprintf("ctx=%s(deadline=%v) timeout=%v event=%s place=%s cancelAt=%v peer=%s chunks=%d delay=%v wbuf=%d tls=%v dialDelay=%v lastOp=%d",
-		s.CtxKind, s.CtxDeadline, s.Timeout, s.Event, s.Place, s.CancelAt, s.Peer, s.Chunks, s.ChunkDelay, s.WBuf, s.TLS, s.DialDelay, s.LastOp)
+	return fmt.Sprintf("ctx=%s(deadline=%v) timeout=%v event=%s place=%s cancelAt=%v peer=%s chunks=%d delay=%v wbuf=%d tls=%v dialDelay=%v lastOp=%d realtls=%v tls12=%v",
+		s.CtxKind, s.CtxDeadline, s.Timeout, s.Event, s.Place, s.CancelAt, s.Peer, s.Chunks, s.ChunkDelay, s.WBuf, s.TLS, s.DialDelay, s.LastOp, s.RealTLS, s.TLS12)
 }
 
 type ctxKey struct{}
@@ -89,6 +93,8 @@ type outcome struct {
 	// insd scenarios: the watcher was parked inside SetDeadline / Dial returned while it was still there
 	watcherParked bool
 	earlyReturn   bool
+	gateParked    bool // before:/after: places: the gated I/O operation was reached
+	peerWrites    int
 }
 
 // peerScript installs the scripted server on c.
@@ -160,7 +166,11 @@ func runScenario(t *testing.T, s scen) (o outcome) {
 		ctx, cancel := makeCtx(s.CtxKind, s.CtxDeadline)
 		defer cancel()
 		c := newVconn()
-		peerScript(c, s)
+		if s.RealTLS {
+			tlsPeer(c, s)
+		} else {
+			peerScript(c, s)
+		}
 		gate := ""
 		if strings.HasPrefix(s.Place, "before:") || strings.HasPrefix(s.Place, "after:") { // (not the insd- places: they install their own gates)
 			gate = s.Place
@@ -183,8 +193,12 @@ func runScenario(t *testing.T, s scen) (o outcome) {
 			},
 			TLSClient: func(cn net.Conn, host string) net.Conn { return tlsWrap{cn} },
 		}
+		if s.RealTLS {
+			d.TLSClient = nil
+			d.TLSConfig = &tls.Config{InsecureSkipVerify: true}
+		}
 		url := "ws://c20.example/x"
-		if s.TLS {
+		if s.TLS || s.RealTLS {
 			url = "wss://c20.example/x"
 		}
 		resCh := make(chan result, 1)
@@ -222,6 +236,7 @@ func runScenario(t *testing.T, s scen) (o outcome) {
 		case gate != "":
 			synctest.Wait()
 			if c.isParked(gate) {
+				o.gateParked = true
 				if s.Event == "cancel" {
 					cancel()
 					synctest.Wait() // the watcher runs to completion
@@ -270,6 +285,10 @@ func runScenario(t *testing.T, s scen) (o outcome) {
 		}
 		o.log = all
 		o.ops = after.ops
+		o.peerWrites = after.peerWrites
+		if s.RealTLS {
+			c.forceClose() // lets the TLS server goroutine of the peer end
+		}
 		cancel()
 		synctest.Wait()
 	})
@@ -335,6 +354,9 @@ func judge(c *mon.C, s scen, o outcome) bool {
 			forcedBefore = i <= s.LastOp
 		} else {
 			forcedBefore = i < s.LastOp
+		}
+		if !o.gateParked {
+			forcedBefore = false // the operation was never reached, so nothing was cancelled
 		}
 	}
 	silent := strings.HasPrefix(s.Peer, "silent:")
@@ -505,6 +527,49 @@ func buildScenarios(t *testing.T) []scen {
 					for _, ck := range ctxAll {
 						s := base
 						s.CtxKind, s.CtxDeadline, s.Peer = ck, far, "non101"
+						scenList = append(scenList, s)
+					}
+				}
+			}
+		}
+		// H: the real TLS path (library's crypto/tls client against a crypto/tls server peer), TLS 1.3 and 1.2
+		for _, tls12 := range []bool{false, true} {
+			for _, chunks := range []int{1, 2} {
+				base := scen{CtxKind: "withcancel", Event: "none", Peer: "responsive", Chunks: chunks, WBuf: 4096, RealTLS: true, TLS12: tls12}
+				dry := runScenario(t, base)
+				k := dry.ops
+				base.LastOp = k - 1
+				for _, ck := range ctxAll {
+					for _, to := range []time.Duration{0, far} {
+						s := base
+						s.CtxKind, s.CtxDeadline, s.Timeout = ck, 2*far, to
+						scenList = append(scenList, s)
+					}
+					s := base
+					s.CtxKind, s.CtxDeadline, s.Peer = ck, far, "non101"
+					scenList = append(scenList, s)
+				}
+				for i := 0; i < k+1; i++ {
+					for _, pl := range []string{"before", "after"} {
+						s := base
+						s.CtxKind, s.CtxDeadline, s.Event, s.Place = []string{"withcancel", "withdeadline"}[i%2], far, "cancel", fmt.Sprintf("%s:%d", pl, i)
+						scenList = append(scenList, s)
+						s.Place = "insd-" + s.Place
+						scenList = append(scenList, s)
+					}
+				}
+				for j := 0; j < dry.peerWrites; j++ { // silent before each of the server's writes (TLS flights, tickets, response chunks)
+					sil := base
+					sil.Peer = fmt.Sprintf("silent:%d", j)
+					s := sil
+					s.Event, s.Place = "cancel", "blocked"
+					scenList = append(scenList, s)
+					s = sil
+					s.CtxKind, s.CtxDeadline = "withdeadline", 5*time.Second
+					scenList = append(scenList, s)
+					for _, ck := range ctxAll {
+						s := sil
+						s.CtxKind, s.CtxDeadline, s.Timeout = ck, 10*time.Second, 3*time.Second
 						scenList = append(scenList, s)
 					}
 				}
@@ -690,6 +755,12 @@ func TestMonitor(t *testing.T) {
 				Do: func(c *mon.C) {
 					s := buildScenarios(t)[c.I]
 					o := runScenario(t, s)
+					if s.RealTLS {
+						c.Run.AddExtra("real_tls_scenarios", 1)
+						if (strings.HasPrefix(s.Place, "before:") || strings.HasPrefix(s.Place, "after:")) && !o.gateParked {
+							c.Run.AddExtra("real_tls_scenarios_whose_gated_operation_was_not_reached", 1)
+						}
+					}
 					if strings.HasPrefix(s.Place, "insd-") {
 						if o.watcherParked {
 							c.Run.AddExtra("scenarios_with_watcher_parked_inside_SetDeadline", 1)
